@@ -603,6 +603,12 @@ class SymExec:
             for n in ast.walk(s):
                 if isinstance(n, ast.Name) and isinstance(n.ctx, (ast.Store, ast.Del)):
                     bound.add(n.id)
+            # a local container the body mutates in place (`acc.append(x)`) no longer has its pre-loop value either
+            for n in ast.walk(s):
+                if isinstance(n, ast.Call) and isinstance(n.func, ast.Attribute) and isinstance(n.func.value, ast.Name) \
+                        and n.func.attr in ("append", "extend", "add", "update", "insert", "appendleft") \
+                        and isinstance(p.env.get(n.func.value.id), (ast.List, ast.Set, ast.Dict, ast.ListComp, ast.SetComp)):
+                    bound.add(n.func.value.id)
             for b in bound:
                 p.env[b] = ast.Name(id=f"<{b}@loop{ln}>", ctx=ast.Load())
             p.epoch += 1
